@@ -50,14 +50,11 @@ class _AddressList(Writeable):
         if self.headers:
             addresses: list[Address] = []
             for header in self.headers:
-                if isinstance(header, SingleAddressHeader):
-                    addresses.append(header.address)
-                else:
-                    addresses.extend(header.addresses)
-            return List([self._parse(address)
-                         for address in addresses])
-        else:
-            return Nil()
+                addresses.extend(header.addresses)
+            if addresses:
+                return List([self._parse(address)
+                             for address in addresses])
+        return Nil()
 
     def write(self, writer: WriteStream) -> None:
         self._value.write(writer)
